@@ -7,6 +7,7 @@ import (
 	"os"
 	"os/exec"
 	"path/filepath"
+	"regexp"
 	"sort"
 	"strings"
 	"sync"
@@ -26,7 +27,99 @@ var solvers = []solverSpec{
 	}},
 }
 
-func (o *Obligation) query(withModel bool) string {
+var identRe = regexp.MustCompile(`[A-Za-z_][A-Za-z0-9_]*`)
+
+// sliceAsserts selects the assertions in the cone of influence of the obligation: definitions of
+// the symbols it mentions (transitively) and assumptions about those symbols. Dropping assertions
+// can only lose proofs, never create them, so a sliced `unsat` is a valid discharge.
+func (o *Obligation) sliceAsserts(defsOnly bool) map[int]bool {
+	vc := o.vc
+	rel := map[string]bool{}
+	for _, id := range identRe.FindAllString(o.guard+" "+o.formula, -1) {
+		if vc.symDeclared[id] {
+			rel[id] = true
+		}
+	}
+	keep := map[int]bool{}
+	for pass := 0; pass < 4; pass++ {
+		changed := false
+		for i := o.pos - 1; i >= 0; i-- {
+			if keep[i] {
+				continue
+			}
+			hit := false
+			for _, sy := range vc.assertSyms[i] {
+				if rel[sy] {
+					hit = true
+					break
+				}
+			}
+			if !hit {
+				continue
+			}
+			// a definition (= name term) is needed only when the defined name is relevant
+			a := vc.asserts[i]
+			isDef := false
+			if strings.HasPrefix(a, "(= ") {
+				name := a[3:]
+				if j := strings.IndexByte(name, ' '); j > 0 {
+					name = name[:j]
+				}
+				if vc.symDeclared[name] {
+					isDef = true
+					if !rel[name] {
+						continue
+					}
+				}
+			}
+			if defsOnly && !isDef && !strings.Contains(a, "gh") {
+				continue // ghost/guard-level slice: definitions and ghost facts only
+			}
+			keep[i] = true
+			changed = true
+			for _, sy := range vc.assertSyms[i] {
+				rel[sy] = true
+			}
+		}
+		if !changed {
+			break
+		}
+	}
+	return keep
+}
+
+// indexSymbols prepares the symbol index used by slicing (called serially before discharge).
+func (vc *VC) indexSymbols() {
+	if vc.symDeclared != nil {
+		return
+	}
+	{
+		vc.symDeclared = map[string]bool{}
+		for _, d := range vc.decls {
+			if strings.HasPrefix(d, "(declare-const ") {
+				f := strings.Fields(d)
+				vc.symDeclared[f[1]] = true
+			}
+		}
+		for _, stop := range []string{"alloc0", "MI0", "MR0"} {
+			delete(vc.symDeclared, stop)
+		}
+		vc.assertSyms = make([][]string, len(vc.asserts))
+		for i, a := range vc.asserts {
+			seen := map[string]bool{}
+			for _, id := range identRe.FindAllString(a, -1) {
+				if vc.symDeclared[id] && !seen[id] {
+					seen[id] = true
+					vc.assertSyms[i] = append(vc.assertSyms[i], id)
+				}
+			}
+		}
+	}
+}
+
+func (o *Obligation) query(withModel bool) string { return o.queryWith(withModel, nil) }
+
+func (o *Obligation) queryWith(withModel bool, keep map[int]bool) string {
 	vc := o.vc
 	vc.finalize()
 	var sb strings.Builder
@@ -44,6 +137,9 @@ func (o *Obligation) query(withModel bool) string {
 		sb.WriteString(f + "\n")
 	}
 	for k, a := range vc.asserts[:o.pos] {
+		if keep != nil && !keep[k] {
+			continue
+		}
 		if o.Cover && vc.obAsserts[k] {
 			continue // reachability is judged under assumptions only, not under obligations that may fail
 		}
@@ -119,6 +215,7 @@ func discharge(obs []*Obligation, opt solveOpts) {
 	for _, o := range obs {
 		if o.vc != nil {
 			o.vc.finalize()
+			o.vc.indexSymbols()
 		}
 	}
 	var wg sync.WaitGroup
@@ -143,9 +240,32 @@ func discharge(obs []*Obligation, opt solveOpts) {
 				o.Result, o.Backend = "failed", "structural"
 				return
 			}
+			var results []string
+			trySlice := func(defsOnly bool, to int) bool {
+				keep := o.sliceAsserts(defsOnly)
+				if len(keep) >= o.pos {
+					return false
+				}
+				sfile := file + ".slice.smt2"
+				os.WriteFile(sfile, []byte(o.queryWith(false, keep)), 0o644)
+				r, _, ms := runSolver(solvers[0], sfile, to)
+				os.Remove(sfile)
+				o.Ms += ms
+				if r == "unsat" {
+					o.Result, o.Backend = "unsat", fmt.Sprintf("%s (slice: %d of %d assertions)", solvers[0].name, len(keep), o.pos)
+					return true
+				}
+				results = append(results, "slice:"+r)
+				return false
+			}
+			if !o.Cover && strings.Contains(o.formula, "gh") && o.pos > 1500 {
+				// ghost-level obligation in a large VC: definitions and ghost facts usually suffice
+				if trySlice(true, 5) {
+					return
+				}
+			}
 			os.WriteFile(file, []byte(o.query(false)), 0o644)
 			defer os.Remove(file)
-			var results []string
 			for si, s := range solvers {
 				to := opt.timeoutS
 				if o.Cover {
@@ -190,6 +310,9 @@ func discharge(obs []*Obligation, opt solveOpts) {
 					o.Model = text
 					return
 				}
+			}
+			if !o.Cover && trySlice(false, 10) {
+				return
 			}
 			o.Result, o.Backend = "unknown", strings.Join(results, ",")
 		}(k, o)
